@@ -587,7 +587,7 @@ register(
                          "uses_history": int(bool(sc.get("uses_history"))), "uses_raise": int(bool(sc.get("uses_raise"))),
                          "uses_nested_expansion": int(bool(sc.get("uses_nested"))), "uses_invoke": int(bool(sc.get("uses_invoke"))),
                          "transitions": sum(1 for x in r.trace if x[3] == "trans")},
-    tiers={"quick": {"runs": 3000}, "thorough": {"runs": 200000}},
+    tiers={"quick": {"runs": 9000}, "thorough": {"runs": 200000}},
     rule=("the same scenario (machine, logic, event sequence) is executed on SyncInterpreter, on Interpreter (under two different client "
           "schedules) and through initial_transition/transition; after start and after every event the configuration, context, status and "
           "output must agree, as must the ordered list of executed actions with their triggering events (sync vs async) and the list of "
